@@ -15,7 +15,10 @@ META = {
     "text": "Unencrypted framing and all 144 cipher x MAC x compression suites, both directions: every payload "
             "length 1..72 (= 4 x 16 + 8, >= 4 periods of the padding formula for block sizes 8 and 16; thorough: "
             "1..600) plus 255, 256, 257, 4095, 4096, 32768, 35000, 65535, 65536, 70000, as one stateful stream per suite; key "
-            "switches between framing classes with and without strict-kex sequence reset. For every packet written: "
+            "switches between framing classes with and without strict-kex sequence reset; new dimension 'socket send() "
+            "answers': per suite and direction a 2-message stream (5, 40 bytes) written to a socket that accepts at most "
+            "1, 7 or 33 bytes per call (quick server->client: 7, 33), with no or exactly one call - every call index - "
+            "answering socket.timeout / EAGAIN instead. For every packet written: "
             "length field == bytes written, 4 <= padding <= 255, encrypted span (length excluded for EtM/GCM) a "
             "multiple of max(8, block size), MAC/tag of the negotiated size verifies over the RFC's input, decoded "
             "(and inflated) payload == message sent.",
@@ -29,6 +32,8 @@ LENGTHS = tuple(range(1, 73)) + BOUNDARY
 LENGTHS_T = tuple(range(1, 601)) + BOUNDARY[3:]
 PTYPES = (94, 2, 80, 98, 255)
 SWITCH_L = (3, 20, 64, 9)
+SHORTWRITE_L = (5, 40)          # messages of the short-write streams
+SHORTWRITE_K = (1, 7, 33)       # send() accepts at most k bytes per call
 SWITCH_REPS = (
     ("aes128-ctr", "hmac-sha2-256", "none"),
     ("aes256-cbc", "hmac-sha1-96", "zlib"),
@@ -54,6 +59,8 @@ def msgs(lengths, salt0=0):
 def build_script(desc):
     """desc (JSON-able) -> script.  {"part": "lengths", "suite": [c, m, z] | None} or
     {"part": "switch", "a": [...], "b": [...], "strict": bool, "k": int}."""
+    if desc["part"] == "shortwrite":
+        return [("switch",) + tuple(desc["suite"]) + (False,)] + msgs(SHORTWRITE_L, salt0=500)
     if desc["part"] == "lengths":
         suite = desc["suite"]
         L = LENGTHS_T if desc.get("tier") == "thorough" else LENGTHS
@@ -65,12 +72,22 @@ def build_script(desc):
 
 
 def check_script(direction, desc, acc, upto=None):
-    """Transmit the script with a real sender; decode every written packet with the reference receiver."""
+    """Transmit the script with a real sender; decode every written packet with the reference receiver.
+
+    desc["send"] = {"max": k | None, "faults": {send call index: "timeout" | "eagain"}}: how the socket answers
+    send() (short writes, would-block); a packet's wire bytes are then what the socket accepted during its
+    send_message call."""
     script = build_script(desc)
     if upto is not None:
         script = script[:upto + 1]
     part = desc["part"]
-    _stream, chunks, sent = P.transmit(direction, script)
+    send = desc.get("send") or {}
+    faults = {int(k): v for k, v in (send.get("faults") or {}).items()}
+    _stream, chunks, sent = P.transmit(direction, script, send_max=send.get("max"), send_faults=faults)
+    if send:
+        acc.count("send_calls", P.transmit.last["send_calls"])
+        acc.count("short_writes", P.transmit.last["short_writes"])
+        acc.count("send_would_block_answers", P.transmit.last["send_faults_raised"])
     dec = R.PacketDecoder()          # unencrypted initial state
     suite = None
     nsw = 0
@@ -102,7 +119,8 @@ def check_script(direction, desc, acc, upto=None):
                 acc.count("packets_not_judged_after_misframed_packet", len(script) - idx - 1)
             for pr in problems[:1]:
                 dims = {"framing": framing4(suite), "block": P.block_size(suite[0]) if suite else 8,
-                        "zlib": bool(suite and suite[2] != "none"), "after-key-switch": nsw > 1}
+                        "zlib": bool(suite and suite[2] != "none"), "after-key-switch": nsw > 1,
+                        "socket-send": send_class(send)}
                 if suite and framing4(suite) != "gcm":
                     dims["mac"] = suite[1]
                 P.sig_violation(acc, pr, dims, {"part": part, "suite": suite, "item": list(it), "decoded": inf.as_dict(),
@@ -113,7 +131,7 @@ def check_script(direction, desc, acc, upto=None):
         else:
             bs = P.block_size(suite[0]) if suite else 8
             acc.nt((framing4(suite), suite, len(expect) % bs if not (suite and suite[2] != "none") else "z",
-                    inf.padding_length))
+                    inf.padding_length) + ((send_class(send), send.get("max")) if send else ()))
             acc.cmax("max_padding_seen", inf.padding_length)
             acc.count("packets_verified")
             if suite and suite[2] != "none":
@@ -142,6 +160,48 @@ def do_suite(item, acc):
                     "wire_lengths_first_20": [len(c) for c in chunks[:20]]})
 
 
+def send_class(send):
+    if not send:
+        return "whole"
+    if not send.get("faults"):
+        return "short-write"
+    return "short-write+would-block"
+
+
+def send_policies(stream_len, k, kinds):
+    """Every answer sequence of the stated shape: each send() accepts at most k bytes; none or exactly one call
+    (every index that can occur) answers 'would block' instead (socket.timeout or EAGAIN)."""
+    yield {"max": k, "faults": {}}
+    n_calls = -(-stream_len // k) + 4          # upper bound: every packet adds at most one partial call
+    for kind in kinds:
+        for i in range(n_calls + 1):
+            yield {"max": k, "faults": {str(i): kind}}
+
+
+def do_shortwrite(item, acc):
+    """The socket takes packets piecewise and/or reports 'would block' in between (write_all's retry loop): the
+    bytes that reach the wire for each packet must still be exactly one well-formed packet."""
+    _, suite, direction, tier = item
+    base = {"part": "shortwrite", "suite": list(suite)}
+    # bound for the send-call indices: must not depend on payload bytes (VERIF_SEED), so it is taken from the
+    # uncompressed stream plus zlib's worst-case per-stream overhead
+    stream, _chunks, _sent = P.transmit(direction, build_script({"part": "shortwrite",
+                                                                 "suite": [suite[0], suite[1], "none"]}))
+    bound = len(stream) + (32 if suite[2] != "none" else 0)
+    ks = SHORTWRITE_K if (tier != "quick" or direction == "c2s") else SHORTWRITE_K[1:]
+    for k in ks:
+        kinds = ("timeout",) if k == 1 else ("timeout", "eagain")
+        for pol in send_policies(bound, k, kinds):
+            desc = dict(base)
+            desc["send"] = pol
+            check_script(direction, desc, acc)
+            acc.count("short_write_streams")
+    if suite == P.all_suites()[3] and direction == "c2s":
+        acc.sample({"part": "shortwrite", "suite": suite, "dir": direction, "payload_lengths": list(SHORTWRITE_L),
+                    "stream_len_bound": bound, "send_accepts_at_most": list(ks),
+                    "would_block_at": "no call / each single send() call index"})
+
+
 def do_switch(item, acc):
     _, a, b = item
     for direction in ("c2s", "s2c"):
@@ -152,7 +212,7 @@ def do_switch(item, acc):
 
 
 def run_item(item, acc):
-    (do_suite if item[0] == "suite" else do_switch)(item, acc)
+    {"suite": do_suite, "switch": do_switch, "shortwrite": do_shortwrite}[item[0]](item, acc)
 
 
 def items_for(tier):
@@ -160,6 +220,9 @@ def items_for(tier):
     for s in P.all_suites():
         for d in ("c2s", "s2c"):
             items.append(("suite", s, d, tier))
+    for s in P.all_suites():
+        for d in ("c2s", "s2c"):
+            items.append(("shortwrite", s, d, tier))
     reps = SWITCH_REPS if tier == "quick" else tuple(
         (c, m, z) for (c, m, _z) in SWITCH_REPS for z in P.COMPRESSIONS)
     for a in reps:
@@ -173,16 +236,20 @@ def main(tier):
         PID, tier, "exploration",
         "case = one packet written by the sender (suite, direction, payload length, position in a stateful "
         "stream), decoded by the reference receiver. nontrivial = distinct (framing class, cipher, MAC, "
-        "compression, payload length mod block size ['z' when compressed], observed padding length) tuples "
+        "compression, payload length mod block size ['z' when compressed], observed padding length[, socket send() "
+        "answer class and per-call byte limit]) tuples "
         "among packets that decoded with no section-6 problem; periodicity argument: the padding formula "
         "depends on the payload length only through len mod block size, every residue is hit >= 4 times",
         ["reference decoder and KDF (vmc/refs/rfc4253.py) are written from the RFCs and use cryptography/hmac/zlib",
-         "one socket write per packet (observed: the harness fails hard otherwise)",
+         "when the socket accepts everything there is one socket write per packet (observed: the harness fails hard "
+         "otherwise); under short writes / would-block answers 'the packet written' = the bytes the socket accepted "
+         "during that packet's send_message call",
          "minimum packet size (RFC 4253 6: 16 bytes) is not part of the statement and is not checked"])
     items = items_for(tier)
     ck.merge(core.pmap(items, run_item))
     P.regroup(ck, {"framing": {"clear", "classic", "etm", "gcm"}, "block": {8, 16}, "zlib": {True, False},
-                   "after-key-switch": {True, False}, "mac": set(P.MACS)})
+                   "after-key-switch": {True, False}, "mac": set(P.MACS),
+                   "socket-send": {"whole", "short-write", "short-write+would-block"}})
     ck.extra["bound"] = {"suites": len(P.all_suites()) + 1, "directions": 2, "payload_lengths": len(LENGTHS if tier == "quick" else LENGTHS_T),
                          "max_payload": max(LENGTHS), "switch_pairs": len([i for i in items if i[0] == "switch"])}
     return ck.finish()
